@@ -13,14 +13,15 @@ META = {
             "of 1 ns + 1e-9 relative for the floating-point evaluation. TLC checks on a configuration grid (base 0 / 1 ns / 1 s / 2^62, "
             "maxDelay 1 ns / 120 s / MaxInt64, multipliers 1, 3/2, 8/5, 1/2, jitter 0, 1/5, 3/2, retries up to 16) that an ideal sampler "
             "with a saturating int64 conversion meets these bounds (negative control: wrapping conversion), and a small pacing model "
-            "(failure -> wait >= backoff(idx) from the start of the attempt -> next attempt; success / ResetConnectBackoff -> idx 0; "
-            "negative control: skipped wait). TLC then validates, for each configuration and retry count, the smallest and the largest "
+            "(an attempt of arbitrary duration fails -> wait >= backoff(idx) from the FAILURE -> next attempt; success / "
+            "ResetConnectBackoff -> idx 0; negative controls: skipped wait, wait counted from the start of the attempt). TLC then validates, for each configuration and retry count, the smallest and the largest "
             "of K = 1000 results sampled from the real Exponential.Backoff, and the virtual dial instants of a real "
             "grpc.ClientConn (testing/synctest, scripted failing / succeeding dialer, ResetConnectBackoff) against the pacing clauses.",
     "note": "math/rand/v2's global source has no seam, so the jitter draw is sampled (1000 draws per case), not enumerated. The pacing "
-            "driver uses one address (pick_first) and a dialer that fails at once, so the gap between attempts is the slept backoff; "
-            "lower bound (1-j) x min(base x m^(idx-1), max) per consecutive failure, and 'first failure after READY / "
-            "ResetConnectBackoff waits the base delay again' (index reset). Multi-address subchannels and slow dials are not covered.",
+            "driver uses one address (pick_first) and a scripted dialer whose attempts fail at once, after a part of the backoff, after "
+            "longer than any backoff, or by running into the dial deadline; the wait is judged from the instant the attempt FAILED to the "
+            "start of the next dial: lower bound (1-j) x min(base x m^(idx-1), max) per consecutive failure, and 'first failure after READY "
+            "/ ResetConnectBackoff waits the base delay again' (index reset). Multi-address subchannels are not covered.",
     "technique": "TLA+ reference specification model-checked by TLC on a bounded grid; sampled extremes of the real function validated by TLC",
 }
 
@@ -36,6 +37,7 @@ def run(ctx):
     ctx.mc("BackoffMC", ctx.pick("BackoffMC.cfg", "BackoffMCT.cfg"), workers=4, timeout=1800, stack="64m")
     ctx.neg("BackoffMC", "BackoffNeg.cfg", expect="I_NonNeg", workers=2, stack="64m")
     ctx.neg("BackoffMC", "BackoffNeg2.cfg", expect="I_PaceStep", workers=2, stack="64m")
+    ctx.neg("BackoffMC", "BackoffNeg3.cfg", expect="I_PaceStep", workers=2, stack="64m")
     binary = ctx.go_build("internal/backoff", name="c20", only=r"zz_verif_c20_")
     path = os.path.join(ctx.run, "c20.ndjson")
     ctx.driver(binary, "TestVerifC20Backoff", {"VERIF_OUT": path, "VERIF_N": ctx.pick(80, 1200), "VERIF_K": ctx.pick(1000, 4000)})
